@@ -1,6 +1,7 @@
 """Independent observer: reads the SQLite tables and the directory tree without
 going through diskcache, and evaluates the quiescent structural invariant."""
 
+import enum
 import io
 import math
 import os
@@ -89,8 +90,13 @@ def same(a, b):
         if len(a) != len(b):
             return False
         return {canon(x) for x in a} == {canon(x) for x in b}
+    if isinstance(a, enum.Enum):
+        return a is b
     if hasattr(a, '__dict__') and ta.__module__ != 'builtins':
-        return same(a.__dict__, b.__dict__)
+        for base in (str, bytes, bytearray, int, float):
+            if isinstance(a, base) and not same(base(a), base(b)):     # subclass of a scalar: content and attributes
+                return False
+        return same(dict(a.__dict__), dict(b.__dict__))
     return a == b
 
 
